@@ -133,3 +133,43 @@ FX_SYNTH = "def emitter_code(cls, p):\n    return cls(p, is_synthetic=True)\n"
 FX_WRITE = "class Q:\n    def put(self, item):\n        self._last_item = item\n"
 FX_CYCLE = {("A", "B"), ("B", "A")}
 FX_RESET = "class R:\n    def __init__(self):\n        self._m = {}\n    def forget(self):\n        self._m = {}\n    def wipe(self):\n        self._m.clear()\nclass U:\n    def run(self, r):\n        r.forget()\n"
+
+
+class _MiniProgram:
+    """Just enough of model.Program for the attribute-initialisation detector to run on a fixture."""
+
+    def __init__(self, src: str):
+        import types
+
+        self._classes = {}
+        tree = ast.parse(src)
+        for c in tree.body:
+            if isinstance(c, ast.ClassDef):
+                methods = {f.name: types.SimpleNamespace(node=f) for f in c.body if isinstance(f, ast.FunctionDef)}
+                self._classes[c.name] = types.SimpleNamespace(node=c, methods=methods, attrs={}, bases=[ast.unparse(b) for b in c.bases])
+
+    def has_cls(self, n):
+        return n in self._classes
+
+    def cls(self, n):
+        return self._classes[n]
+
+    def mro(self, n):
+        out, todo = [], [n]
+        while todo:
+            x = todo.pop(0)
+            out.append(x)
+            if x in self._classes:
+                todo += self._classes[x].bases
+        return out
+
+
+FX_UNASSIGNED = "class T:\n    def __init__(self):\n        self._a = 1\n    def run(self):\n        return self._a + self._start_time\n"
+
+
+def unassigned_fixture_fires() -> None:
+    from .flow import unassigned_self_attrs
+
+    hits = unassigned_self_attrs(_MiniProgram(FX_UNASSIGNED), "T")
+    if [h[0] for h in hits] != ["_start_time"]:
+        raise AnalysisError("positive fixture for the attribute-initialisation detector did not match: the detector is broken")
